@@ -80,7 +80,9 @@ theorem sim_run_c17 : ∀ (ops : List Op) {t : HT} {d : Dict}, Inv t → Sim t d
     have hi1 : (t.step op).1.iters = [] :=
       ok.sim.empty_iff.1 (dict_step_iters d op hop (s.empty_iff.2 hi))
     obtain ⟨r1, r2⟩ := sim_run_c17 ops h1 ok.sim hi1 (fun o ho => hops o (by simp [ho]))
-    unfold results trace at r1 r2 ⊢
+    unfold results at r1
+    unfold trace at r2
+    unfold results trace
     show List.map _ ((Map.runFrom HT.step t (op :: ops)).2) = List.map _ ((Map.runFrom Dict.step d (op :: ops)).2) ∧
       List.map _ ((Map.runFrom HT.step t (op :: ops)).2) = List.map _ ((Map.runFrom Dict.step d (op :: ops)).2)
     rw [runFrom_cons, runFrom_cons]
